@@ -39,6 +39,7 @@ type CountFn = fn(Tier) -> u64;
 fn table(prop: &str) -> Option<(CountFn, GenFn, RunFn)> {
     Some(match prop {
         "C01" => (c01::count, c01::gen, c01::run),
+        "C04P" => (c04p::count, c04p::gen, c04p::run),
         "C02" => (c02::count, c02::gen, c02::run),
         "C03" => (c03::count, c03::gen, c03::run),
         "C10" => (c10::count, c10::gen, c10::run),
@@ -50,6 +51,82 @@ fn table(prop: &str) -> Option<(CountFn, GenFn, RunFn)> {
         "C16" => (c16::count, c16::gen, c16::run),
         _ => return None,
     })
+}
+
+fn lab_oracle(prop: &str) -> Option<lab::Oracle> {
+    match prop {
+        "C04" => Some(lab::Oracle::C04),
+        "C05" => Some(lab::Oracle::C05),
+        "C06" => Some(lab::Oracle::C06),
+        _ => None,
+    }
+}
+
+/// C04's pristine clause on a broad set of generated containers.
+mod c04p {
+    use jbkverif::proto::*;
+    use jbkverif::*;
+    use serde_json::{json, Value};
+    pub fn count(tier: Tier) -> u64 {
+        tier.pick(60, 900)
+    }
+    pub fn gen(seed: u64, tier: Tier, k: u64) -> Value {
+        let mut rng = rng::Rng::keyed(seed, "C04P", k);
+        let pkg = [c01::Pkg::OneFile, c01::Pkg::TwoFiles, c01::Pkg::NoConcat][(k % 3) as usize];
+        cont::gen_small(&mut rng, tier, pkg, (k % 4 == 3) as usize, 8).to_json()
+    }
+    pub fn run(desc: &Value, ctx: &Ctx) -> CaseOut {
+        let mut out = CaseOut::new();
+        let case = cont::ContCase::from_json(desc);
+        let scratch = util::Scratch::new(&ctx.work, "c04p");
+        let mut fp = rng::Fp::new();
+        fp.s(case.pkg.as_str()).s(case.content.comp.name()).u(case.content.items.len() as u64).u(case.extra.len() as u64);
+        out.fp = fp.hex();
+        out.nontrivial = true;
+        out.obs.inc(&format!("pristine.pkg.{}", case.pkg.as_str()));
+        out.obs.inc(&format!("pristine.comp.{}", case.content.comp.name()));
+        match util::catch(|| cont::create_container(&case, &scratch.dir, "c.jbk", std::sync::Arc::new(()))) {
+            Ok(Ok(created)) => {
+                let mut plan = dump::plan_for(&case, Some(&created));
+                plan.indexes.clear();
+                plan.addrs.clear();
+                let d = dump::dump_container(&created.path, &plan);
+                for (k, v) in &d {
+                    if k.starts_with("check/") {
+                        out.obs.inc("pristine_checks");
+                        if v != "ok:true" {
+                            out.violate(json!({"kind": "pristine-check", "check": k.split('/').take(2).collect::<Vec<_>>().join("/"), "profile": profile()}), format!("C04: a freshly created container ({}, {}) does not verify: {k} = {v}", case.pkg.as_str(), case.content.comp.name()), json!({}));
+                        }
+                    }
+                }
+            }
+            Ok(Err(e)) => out.inconclusive(format!("creation failed (C01/C02's concern): {e}")),
+            Err(p) => out.inconclusive(format!("creation panicked (C01/C02's concern): {}", p.msg)),
+        }
+        out
+    }
+}
+
+fn arm_watchdog(k: u64, secs: u64) -> std::sync::Arc<std::sync::atomic::AtomicBool> {
+    let done = std::sync::Arc::new(std::sync::atomic::AtomicBool::new(false));
+    if secs == 0 {
+        return done;
+    }
+    let d = done.clone();
+    std::thread::spawn(move || {
+        let t0 = std::time::Instant::now();
+        while t0.elapsed().as_secs() < secs {
+            std::thread::sleep(std::time::Duration::from_millis(100));
+            if d.load(std::sync::atomic::Ordering::Relaxed) {
+                return;
+            }
+        }
+        if !d.load(std::sync::atomic::Ordering::Relaxed) {
+            util::emit(&json!({"t": "hang", "k": k, "after_s": secs}));
+            std::process::exit(3);
+        }
+    });
+    done
 }
 
 fn main() {
@@ -64,26 +141,49 @@ fn main() {
     let ctx = Ctx { work, tier, seed };
     match cmd.as_str() {
         "plan" => {
+            if let Some(o) = lab_oracle(&prop) {
+                println!("{}", lab::count_for(seed, tier, o, &ctx.work));
+                lab::drop_specimens();
+                return;
+            }
             let (count, _, _) = table(&prop).expect("unknown property");
             println!("{}", count(tier));
         }
         "run" => {
-            let (count, gen, run) = table(&prop).expect("unknown property");
+            let case_timeout = args.u64("case-timeout", 0);
+            let total = match lab_oracle(&prop) {
+                Some(o) => lab::count_for(seed, tier, o, &ctx.work),
+                None => (table(&prop).expect("unknown property").0)(tier),
+            };
             let from = args.u64("from", 0);
-            let to = args.u64("to", count(tier)).min(count(tier));
+            let to = args.u64("to", total).min(total);
             let stride = args.u64("stride", 1).max(1);
             let mut k = from;
             while k < to {
-                let desc = gen(seed, tier, k);
+                let desc = match lab_oracle(&prop) {
+                    Some(o) => lab::gen_for(seed, tier, k, o, &ctx.work),
+                    None => (table(&prop).unwrap().1)(seed, tier, k),
+                };
                 util::emit(&json!({"t": "begin", "k": k, "case": desc}));
-                let out = run(&desc, &ctx);
+                let wd = arm_watchdog(k, case_timeout);
+                let out = match lab_oracle(&prop) {
+                    Some(o) => lab::run_for(&desc, &ctx, o),
+                    None => (table(&prop).unwrap().2)(&desc, &ctx),
+                };
+                wd.store(true, std::sync::atomic::Ordering::Relaxed);
                 util::emit(&out.to_json(k));
                 k += stride;
             }
+            lab::drop_specimens();
             util::emit(&json!({"t": "done"}));
         }
         "replay" => {
-            let (_, _, run) = table(&prop).expect("unknown property");
+            let run: RunFn = match lab_oracle(&prop) {
+                Some(lab::Oracle::C04) => |d, c| lab::run_for(d, c, lab::Oracle::C04),
+                Some(lab::Oracle::C05) => |d, c| lab::run_for(d, c, lab::Oracle::C05),
+                Some(lab::Oracle::C06) => |d, c| lab::run_for(d, c, lab::Oracle::C06),
+                None => table(&prop).expect("unknown property").2,
+            };
             let f = args.s("case-file", "");
             let text = std::fs::read_to_string(&f).expect("read case file");
             let v: Value = serde_json::from_str(&text).expect("json");
@@ -91,6 +191,7 @@ fn main() {
             util::emit(&json!({"t": "begin", "k": 0, "case": desc}));
             let out = run(&desc, &ctx);
             util::emit(&out.to_json(0));
+            lab::drop_specimens();
             util::emit(&json!({"t": "done"}));
         }
         _ => {
